@@ -1281,7 +1281,7 @@ const TOKENS: &[&str] = &[
     "true", "false", "null", "contains", "startsWith", "endsWith", "matches", "in", "==", "!=", ">=", "<=",
     ">", "<", "&&", "||", "!", "+", "-", "*", "/", "%", "=", "+=", "(", ")", "{", "}", "[", "]", ",", ";",
     ":", ".", "\"", "'", "\\", "//", "/*", "*/", ";;", ";; MODULE:", "\n", "\t", " ", "0", "1", "42", "3.14", "-5",
-    "9223372036854775807", "99999999999999999999", "1e309", "0x10", "User.Age", "x", "a.b.c", "Order.items",
+    "9223372036854775807", "-9223372036854775808", "99999999999999999999", "1e309", "0x10", "User.Age", "x", "a.b.c", "Order.items",
     "a", "b", "s", "n", "Customer.firstName", "retract(", "log(", "update(", "set(", "ScheduleRule(",
     "SetWorkflowData(", "ActivateAgendaGroup(", "LogMessage(", "\"str\"", "'str'", "\"a b\"", "\"2024-01-01\"",
     "MAIN", "SENSORS", "\u{e9}", "\u{4e2d}", "\u{1f600}", "\u{301}", "\u{a0}", "\u{130}",
@@ -1469,7 +1469,7 @@ fn gen_template(rng: &mut Rng) -> String {
     let c = soup(rng, 4);
     const NUMS: &[&str] = &[
         "0", "1", "5", "00", "307445734561825861", "999999999999999999", "5124095576030431", "18446744073709551615",
-        "18446744073709551616", "9223372036854775807", "4294967296", "-1", "1.5", "99999999999999999999999",
+        "18446744073709551616", "9223372036854775807", "4294967296", "-1", "1.5", "99999999999999999999999", "-9223372036854775808", "2147483648",
     ];
     const UNITS: &[&str] = &["ms", "sec", "seconds", "min", "minutes", "hour", "hours", "days", "m", ""];
     let s = match rng.below(19) {
